@@ -91,6 +91,18 @@ for (nm, ob, d) in [
     ("enum_and_variant_access_frame", "C05.K.de.access.enum_variant", "EnumAccess / VariantAccess re-wrap every payload form"),
     ("seed_wraps_the_deserializer", "C05.K.de.seed", "DeserializeSeed for Override wraps the deserializer"),
     ("default_behavior_is_identity", "C05.K.de.default_behavior", "the default behaviour does not intercept structs (lenient client)"),
+    # every request that can carry a nested object must hand the inner deserializer a re-wrapped visitor, below the entry
+    # point and at the entry point itself, or the behaviour is lost for everything beneath it
+    ("d_any", "C05.K.de.frame.deserialize_any", "deserialize_any reaches the inner method with the visitor wrapped in B"),
+    ("d_option", "C05.K.de.frame.deserialize_option", "optional values: visitor wrapped in B"),
+    ("d_seq", "C05.K.de.frame.deserialize_seq", "lists / sets: visitor wrapped in B"),
+    ("d_map", "C05.K.de.frame.deserialize_map", "maps: visitor wrapped in B"),
+    ("d_named_methods", "C05.K.de.frame.named_methods", "newtype_struct / tuple / tuple_struct / enum requests wrap the visitor"),
+    ("entry_any", "C05.K.entry.deserialize_any", "impl_deserialize_body!: deserialize_any goes through Override<_, $behavior>"),
+    ("entry_option", "C05.K.entry.deserialize_option", "impl_deserialize_body!: deserialize_option goes through Override<_, $behavior>"),
+    ("entry_seq", "C05.K.entry.deserialize_seq", "impl_deserialize_body!: deserialize_seq goes through Override<_, $behavior>"),
+    ("entry_map", "C05.K.entry.deserialize_map", "impl_deserialize_body!: deserialize_map goes through Override<_, $behavior>"),
+    ("entry_named_methods", "C05.K.entry.named_methods", "impl_deserialize_body!: newtype_struct / tuple / tuple_struct / enum go through Override; struct through $behavior's struct hook"),
 ]:
     _h.append(H(nm, ob, DE, ["Visitor<'de> for Override<V,B>::visit_map"] if "map" in nm else ["Deserializer<'de> for Override<T,B>::deserialize_struct"] if "struct" in nm else [], d + " (same harness as the C01 obligation of that name)"))
 
